@@ -13,13 +13,34 @@ def suite_c02(r, n):
     p0.genopts = "slim"
     p0.structs[(p0.files[-1], "StRegI8")] = ("s", [(1, "r", "fregA1", Ty("y", alias="i8")), (2, "o", "fregB2", Ty("y", alias="i8")), (4, "d", "fregC4", Ty("L", Ty("y", alias="i8")))])
     p0.order[p0.files[-1]].append(("r", "StRegI8"))
+    # regression / coverage of IDL defaults: program 0 always has a struct with one defaulted field of every
+    # shape (optional / default / required x base, string, binary, enum by name, typedef, container) and a
+    # struct nesting it (directly, in a list and as a map value)
+    add_defaults_struct(p0)
     jobs, meta = [], []
     per = max(1, n // nprogs)
+    # the fixed MATRIX programs run first in every run (see matrix_progs below)
+    mprogs = matrix_progs()
+    for p in mprogs: matrix_jobs(r, p, jobs, meta)
     for p in progs:
         keys = list(p.structs)
         if not keys: continue
         Stat("programs"); Stat("files", len(p.files)); Stat("structs", len(keys)); Stat("typedefs", len(p.typedefs)); Stat("enums", len(p.enums))
+        for k2 in keys:
+            for (i, req, _, t) in p.structs[k2][1]:
+                dv = p.dflt(k2, i)
+                if dv is not None: Stat("dflt:field:%s:%s" % ("union" if p.structs[k2][0] == "u" else {"r": "required", "o": "optional", "d": "default"}[req], "scalar" if dv[0] in "bngq" else "container"))
         defs = p.defs_code()
+        # known finding go-union-default-field: one witness job per union field with a compared default
+        for k2 in keys:
+            if p.structs[k2][0] != "u": continue
+            for (i, _, fn, t) in p.structs[k2][1]:
+                cd = p.cmp_dflt(k2, i)
+                if cd is None: continue
+                st2, v2 = Ty("S", file=k2[0], name=k2[1]), ("(", {i: cd})
+                ev = ";".join(["SB:" + k2[1], "FB:%s:%d:%d" % (fn, p.wire(t), i)] + events(r, p, t, cd) + ["FE", "FS", "SE"])
+                jobs.append(("r", "p%d" % p.pid, "%s/%s" % k2, "%s/%s" % k2, ev))
+                meta.append(("r", p, st2, v2, "union-default-value", "g2r %s %s/%s %s" % (defs, k2[0], k2[1], ev)))
         for _ in range(per):
             key = r.pick(keys)
             kind, fields = p.structs[key]
@@ -33,9 +54,15 @@ def suite_c02(r, n):
                     if r.chance(50) or len(fields) < 2: v, variant = ("(", {}), "union0"
                     else:
                         f1, f2 = r.shuffle(fields)[:2]
-                        v, variant = ("(", {f1[0]: gen_val(r, p, f1[3], 2), f2[0]: gen_val(r, p, f2[3], 2)}), "union2"
-                jobs.append(("w", "p%d" % p.pid, gotype, sname, dump_val(v)))
-                meta.append(("w", p, st, v, variant, "g2w %s %s %s" % (defs, sname, dump_val(v))))
+                        v, variant = ("(", {f1[0]: gen_set_val(r, p, key, f1[0], f1[3], 2), f2[0]: gen_set_val(r, p, key, f2[0], f2[3], 2)}), "union2"
+                vs = v
+                if variant == "valid" and kind != "u" and r.chance(40):
+                    # the value does not list some default-requiredness fields that have an IDL default: the Go
+                    # fields keep what the constructor New<T>() put there, and that is what must be written
+                    vs, ve = omit_defaulted(r, p, st, v)
+                    if dump_val(vs) != dump_val(v): v, variant = ve, "valid+defaulted-unlisted"
+                jobs.append(("w", "p%d" % p.pid, gotype, sname, dump_val(vs)))
+                meta.append(("w", p, st, v, variant, "g2w %s %s %s" % (defs, sname, dump_val(vs))))
             elif c < 8:     # read
                 variant, drop, unk = "conforming", None, False
                 reqs = [f[0] for f in fields if f[1] == "r"]
@@ -46,14 +73,24 @@ def suite_c02(r, n):
                     if r.chance(50) or len(fields) < 2: v, variant = ("(", {}), "union0"
                     else:
                         f1, f2 = r.shuffle(fields)[:2]
-                        v, variant = ("(", {f1[0]: gen_val(r, p, f1[3], 2), f2[0]: gen_val(r, p, f2[3], 2)}), "union2"
-                ev = ";".join(events(r, p, st, v, extra_unknown=unk, drop=drop, top=True))
+                        v, variant = ("(", {f1[0]: gen_set_val(r, p, key, f1[0], f1[3], 2), f2[0]: gen_set_val(r, p, key, f2[0], f2[3], 2)}), "union2"
+                vs = v
+                if variant in ("conforming", "unknown-fields") and kind != "u" and r.chance(50):
+                    # a peer that does not send default-requiredness fields which have an IDL default (any
+                    # depth): the reader must hold the declared defaults there
+                    vs, ve = omit_defaulted(r, p, st, v)
+                    if dump_val(vs) != dump_val(v): v, variant = ve, variant + "+defaulted-omitted"
+                ev = ";".join(events(r, p, st, vs, extra_unknown=unk, drop=drop, top=True))
                 jobs.append(("r", "p%d" % p.pid, gotype, sname, ev))
                 meta.append(("r", p, st, v, variant, "g2r %s %s %s" % (defs, sname, ev)))
             else:           # real protocols round trip
-                jobs.append(("p", "p%d" % p.pid, gotype, sname, dump_val(v)))
-                meta.append(("p", p, st, v, "valid", "g2p %s %s %s" % (defs, sname, dump_val(v))))
-    res, err = build_and_run(progs, jobs)
+                vs, variant = v, "valid"
+                if kind != "u" and r.chance(40):
+                    vs, ve = omit_defaulted(r, p, st, v)
+                    if dump_val(vs) != dump_val(v): v, variant = ve, "valid+defaulted-unlisted"
+                jobs.append(("p", "p%d" % p.pid, gotype, sname, dump_val(vs)))
+                meta.append(("p", p, st, v, variant, "g2p %s %s %s" % (defs, sname, dump_val(vs))))
+    res, err = build_and_run(mprogs + progs, jobs)
     if res is None:
         OracleFail("valid IDL was not compiled to Go that builds (C02 needs the generated code)", {"op": "build", "detail": err[:3000]})
         Stat("evaluations"); Finish(); return
@@ -63,16 +100,23 @@ def suite_c02(r, n):
         if real is None: real = "no-result"
         Case(line, real)
         Stat("op:%s:%s" % (op, variant)); Stat("outcome:" + real.split(" ")[0]); Stat("evaluations")
+        if getattr(p, "matrix", None): Stat("matrix-cases"); Stat("matrix:%s:%s%s" % (p.matrix[0], "dflt" if p.matrix[1] else "plain", ":slim" if p.genopts else ""))
         Sample({"line": line[:600], "real": real[:300]})
         # ---- the property oracle, from Thrift's rules, independent of the Lean model
         bad = None
         if op == "w":
-            if variant == "valid":
+            if variant.startswith("valid"):
                 want = "ok " + tree(p, st, v)
                 if real != want: bad = "generated Write does not produce the declared encoding (field ids, wire types, values, presence)"
             elif not real.startswith("err:"): bad = "generated Write accepted a union with %s fields set" % variant[-1]
         elif op == "r":
-            if variant in ("conforming", "unknown-fields"):
+            if variant == "union-default-value":
+                # Thrift's rules: a union carrying one field is conforming whatever the value. The emitted Go
+                # union cannot hold a field at its default (IsSet compares with the default): known finding.
+                if real != "ok %s rest=0" % dump_val(v):
+                    Known("go-union-default-field", "a union whose only field carries that field's IDL default value is rejected by the emitted Go Read (and cannot be written): %s" % real)
+                    Stat("known:go-union-default-field")
+            elif variant.split("+")[0] in ("conforming", "unknown-fields"):
                 want = "ok %s rest=0" % canon_dump(p, st, v)
                 if real != want: bad = "generated Read of a conforming encoding (%s) does not reproduce the value" % variant
             elif not real.startswith("err:"): bad = "generated Read accepted an encoding with %s" % variant
@@ -84,6 +128,175 @@ def suite_c02(r, n):
             OracleFail(bad, {"op": "g2" + op, "variant": variant, "line": line, "got": real[:2000], "idl": "\n".join(p.text(f) for f in p.files)[:4000]})
     Finish()
 
+
+
+# ------------------------------------------------------------------ the fixed matrix programs
+# Cross product  field position {required, optional, default requiredness, union member} x {without, with IDL
+# default} x type class {every base type, enum with / without a 0 constant, typedef of base, typedef of a local
+# enum, typedef of an INCLUDED enum, typedef of container, struct, list / set / map of those}, std and slim;
+# per field the Go ZERO value (0, "", empty binary, empty list/map, false, the 0-numbered enum constant — also
+# for the enum that has no such constant) and a non-zero value, through the same w / r / p ops and oracles as
+# the random programs. Not in the matrix (known findings, C11): typedef of a struct as a field type
+# (go-typedef-of-struct), a typedef chain whose second hop is in an included file, binary/containers as keys.
+def _bits(x): 
+    import struct as _st
+    return _st.unpack(">Q", _st.pack(">d", x))[0]
+
+def mx_zero(p, t):
+    t = p.resolve(t)
+    if t.k == "b": return ("b", False)
+    if t.k in "yhilE": return ("n", 0)
+    if t.k == "d": return ("g", 0)
+    if t.k in "sx": return ("q", b"")
+    if t.k in "LZ": return ("[", [])
+    if t.k == "M": return ("{", [])
+    kind, fields = p.structs[(t.file, t.name)]
+    return ("(", {i: mx_zero(p, ty) for (i, req, _, ty) in fields if req != "o"})
+
+def mx_nonzero(p, t):
+    t = p.resolve(t)
+    if t.k == "b": return ("b", True)
+    if t.k in "yhil": return ("n", {"y": 7, "h": 300, "i": 70000, "l": 5000000000}[t.k])
+    if t.k == "E": return ("n", p.enums[(t.file, t.name)][1])
+    if t.k == "d": return ("g", _bits(1.5))
+    if t.k == "s": return ("q", b"ab")
+    if t.k == "x": return ("q", b"\x00\xff")
+    if t.k == "L": return ("[", [mx_nonzero(p, t.a), mx_zero(p, t.a)])
+    if t.k == "Z": return ("[", [mx_zero(p, t.a), mx_nonzero(p, t.a)])
+    if t.k == "M": return ("{", [(mx_zero(p, t.a), mx_nonzero(p, t.b)), (mx_nonzero(p, t.a), mx_zero(p, t.b))])
+    kind, fields = p.structs[(t.file, t.name)]
+    return ("(", {i: mx_nonzero(p, ty) for (i, req, _, ty) in fields})
+
+def mx_default(p, t, nonzero, inner=False):
+    """the IDL default a matrix field of type t gets (None: this type class gets none, as in genlib.gen_default)."""
+    rt = p.resolve(t)
+    if rt.k in "bhyilds" or (rt.k in "Ex" and not inner): return mx_nonzero(p, t) if nonzero else mx_zero(p, t)
+    if inner or rt.k not in "LZM": return None
+    if rt.k in "LZ":
+        e = mx_default(p, rt.a, True, True)
+        return None if e is None else ("[", [e] if nonzero else [])
+    a, b = mx_default(p, rt.a, True, True), mx_default(p, rt.b, False, True)
+    return None if a is None or b is None else ("{", [(a, b)] if nonzero else [])
+
+def build_matrix(pid, pos, with_dflt, slim):
+    p = Prog(pid)
+    inc, f = "mx%dinc" % pid, "mx%dmain" % pid
+    p.files = [inc, f]; p.includes = {inc: [], f: [inc]}; p.order = {inc: [], f: []}
+    p.genopts = "slim" if slim else ""
+    p.matrix = (pos, with_dflt)
+    for (ff, n, vals) in [(inc, "EnIZ", [0, 2]), (inc, "EnIN", [1, 4]), (f, "EnZ", [0, 3]), (f, "EnN", [1, 5])]:
+        p.enums[(ff, n)] = vals; p.order[ff].append(("e", n))
+    E = lambda ff, n: Ty("E", file=ff, name=n)
+    for (n, t) in [("TdI", Ty("i")), ("TdS", Ty("s")), ("TdEZ", E(f, "EnZ")), ("TdEN", E(f, "EnN")), ("TdIZ", E(inc, "EnIZ")),
+                   ("TdIN", E(inc, "EnIN")), ("TdL", Ty("L", Ty("i"))), ("TdM", Ty("M", Ty("s"), Ty("i")))]:
+        p.typedefs[(f, n)] = t; p.order[f].append(("t", n))
+    p.structs[(f, "StLeaf")] = ("s", [(1, "d", "la1", Ty("i")), (2, "o", "lb2", Ty("s"))]); p.order[f].append(("r", "StLeaf"))
+    T = lambda n: Ty("T", file=f, name=n)
+    leaves = [("b", Ty("b")), ("y", Ty("y")), ("h", Ty("h")), ("i", Ty("i")), ("l", Ty("l")), ("d", Ty("d")), ("s", Ty("s")), ("x", Ty("x")),
+              ("ez", E(f, "EnZ")), ("en", E(f, "EnN")), ("ti", T("TdI")), ("ts", T("TdS")), ("tez", T("TdEZ")), ("ten", T("TdEN")),
+              ("tiz", T("TdIZ")), ("tin", T("TdIN")), ("tl", T("TdL")), ("tm", T("TdM")), ("st", Ty("S", file=f, name="StLeaf"))]
+    keyable = [x for x in leaves if x[0] in ("b", "y", "h", "i", "l", "s", "ez", "en", "ti", "ts", "tez", "tiz")]
+    types = list(leaves)
+    types += [("L" + tg, Ty("L", t)) for tg, t in leaves]
+    types += [("Z" + tg, Ty("Z", t)) for tg, t in keyable]
+    types += [("K" + tg, Ty("M", t, Ty("i"))) for tg, t in keyable]
+    types += [("M" + tg, Ty("M", Ty("s"), t)) for tg, t in leaves]
+    fields, dm = [], {}
+    for idx, (tg, t) in enumerate(types):
+        fid = idx + 1
+        if with_dflt:
+            dv = mx_default(p, t, idx % 2 == 0)
+            if dv is None: continue
+            dm[fid] = dv
+        fields.append((fid, "o" if pos == "u" else pos, "m%s%d" % (tg, fid), t))
+    name = "UnMx" if pos == "u" else "StMx"
+    p.structs[(f, name)] = ("u" if pos == "u" else "s", fields); p.order[f].append(("r", name))
+    if dm: p.defaults[(f, name)] = dm
+    p.mxkey = (f, name)
+    return p
+
+def matrix_progs():
+    progs, j = [], 0
+    for slim in (False, True):
+        for pos in ("r", "o", "d", "u"):
+            for with_dflt in (False, True):
+                progs.append(build_matrix(100 + j, pos, with_dflt, slim)); j += 1
+    return progs
+
+def matrix_jobs(r, p, jobs, meta):
+    key = p.mxkey
+    kind, fields = p.structs[key]
+    pos, with_dflt = p.matrix
+    defs, sname, st = p.defs_code(), "%s/%s" % key, Ty("S", file=key[0], name=key[1])
+    def add(op, v, variant, vs=None, drop=None, unk=False):
+        vs = v if vs is None else vs
+        if op == "r":
+            ev = ";".join(events(r, p, st, vs, extra_unknown=unk, drop=drop, top=True))
+            jobs.append(("r", "p%d" % p.pid, sname, sname, ev)); meta.append(("r", p, st, v, variant, "g2r %s %s %s" % (defs, sname, ev)))
+        else:
+            jobs.append((op, "p%d" % p.pid, sname, sname, dump_val(vs))); meta.append((op, p, st, v, variant, "g2%s %s %s %s" % (op, defs, sname, dump_val(vs))))
+    if kind == "u":
+        rot = 0
+        for (i, _, _, t) in fields:
+            cd = p.cmp_dflt(key, i)
+            for which, val in (("zero", mx_zero(p, t)), ("nonzero", mx_nonzero(p, t))):
+                if cd is not None and val == cd: continue        # known finding go-union-default-field (witness job below)
+                v = ("(", {i: val})
+                ops = ("w", "r", "p") if which == "zero" else ("wrp"[rot % 3],)
+                rot += 1
+                for op in ops: add(op, v, "valid" if op != "r" else "conforming")
+        f1, f2 = fields[0], fields[1]
+        two = ("(", {f1[0]: gen_set_val(r, p, key, f1[0], f1[3], 2), f2[0]: gen_set_val(r, p, key, f2[0], f2[3], 2)})
+        for op in ("w", "r"): add(op, ("(", {}), "union0"); add(op, two, "union2")
+        return
+    vals = [("(", {i: mx_zero(p, t) for (i, _, _, t) in fields}), ("(", {i: mx_nonzero(p, t) for (i, _, _, t) in fields})]
+    for _ in range(6):
+        fv = {}
+        for (i, req, _, t) in fields:
+            c = r.intn(3)
+            if req == "o" and c == 2: continue
+            fv[i] = mx_zero(p, t) if c == 0 else (mx_nonzero(p, t) if c == 1 or req != "o" else mx_zero(p, t))
+        vals.append(("(", fv))
+    for v in vals:
+        add("w", v, "valid"); add("r", v, "conforming"); add("p", v, "valid"); add("r", v, "unknown-fields", unk=True)
+        if with_dflt and pos == "d":
+            vs, ve = omit_defaulted(r, p, st, v)
+            if dump_val(vs) != dump_val(v):
+                add("r", ve, "conforming+defaulted-omitted", vs=vs); add("w", ve, "valid+defaulted-unlisted", vs=vs); add("p", ve, "valid+defaulted-unlisted", vs=vs)
+    if pos == "r":
+        for _ in range(4): add("r", vals[1], "missing-required", drop=r.pick(fields)[0])
+
+
+def add_defaults_struct(p):
+    f = p.files[-1]
+    import struct as _st
+    dbl = lambda x: ("g", _st.unpack(">Q", _st.pack(">d", x))[0])
+    p.enums[(f, "EnDf")] = [1, 5, 6]; p.order[f].append(("e", "EnDf"))
+    p.typedefs[(f, "TdDfInt")] = Ty("i"); p.order[f].append(("t", "TdDfInt"))
+    p.typedefs[(f, "TdDfEnum")] = Ty("E", file=f, name="EnDf"); p.order[f].append(("t", "TdDfEnum"))
+    p.typedefs[(f, "TdDfList")] = Ty("L", Ty("i")); p.order[f].append(("t", "TdDfList"))
+    en, tde = Ty("E", file=f, name="EnDf"), Ty("T", file=f, name="TdDfEnum")
+    fields = [(1, "o", "fdfA1", Ty("i")), (2, "d", "fdfB2", Ty("i")), (3, "r", "fdfC3", Ty("s")), (4, "o", "fdfD4", Ty("s")),
+              (5, "o", "fdfE5", en), (6, "o", "fdfF6", Ty("b")), (7, "o", "fdfG7", Ty("d")), (8, "o", "fdfH8", Ty("x")),
+              (9, "o", "fdfI9", Ty("L", Ty("i"))), (10, "d", "fdfJ10", Ty("L", Ty("i"))), (11, "o", "fdfK11", Ty("M", Ty("s"), Ty("i"))),
+              (12, "o", "fdfL12", Ty("T", file=f, name="TdDfInt")), (13, "o", "fdfM13", tde), (14, "o", "fdfN14", Ty("T", file=f, name="TdDfList")),
+              (15, "o", "fdfO15", Ty("l")), (16, "o", "fdfP16", Ty("y")), (17, "o", "fdfQ17", Ty("h")), (18, "d", "fdfR18", Ty("x")),
+              (19, "o", "fdfS19", Ty("Z", Ty("i"))), (20, "d", "fdfT20", en), (21, "o", "fdfU21", Ty("i")), (22, "d", "fdfV22", Ty("M", Ty("i"), Ty("s"))),
+              (23, "d", "fdfW23", tde), (24, "o", "fdfX24", Ty("s")), (25, "d", "fdfY25", Ty("b")), (26, "d", "fdfZ26", Ty("d"))]
+    p.structs[(f, "StDflt")] = ("s", fields); p.order[f].append(("r", "StDflt"))
+    p.defaults[(f, "StDflt")] = {1: ("n", 5), 2: ("n", 7), 3: ("q", b"hi"), 4: ("q", b"yo"), 5: ("n", 5), 6: ("b", True), 7: dbl(1.5), 8: ("q", b"ab"),
+                                 9: ("[", [("n", 1), ("n", 2)]), 10: ("[", [("n", 3)]), 11: ("{", [(("q", b"a"), ("n", 1))]), 12: ("n", 3), 13: ("n", 1),
+                                 14: ("[", [("n", 4)]), 15: ("n", 10), 16: ("n", 2), 17: ("n", 3), 18: ("q", b"zz"), 19: ("[", [("n", 1)]), 20: ("n", 6),
+                                 22: ("{", [(("n", 1), ("q", b"x"))]), 23: ("n", 5), 24: ("q", b""), 25: ("b", True), 26: dbl(-2.25)}
+    st = Ty("S", file=f, name="StDflt")
+    p.structs[(f, "StDfltOuter")] = ("s", [(1, "o", "fdoA1", st), (2, "d", "fdoB2", st), (3, "d", "fdoC3", Ty("L", st)), (4, "o", "fdoD4", Ty("M", Ty("s"), st))])
+    p.order[f].append(("r", "StDfltOuter"))
+    p.structs[(f, "UnDflt")] = ("u", [(1, "o", "fduA1", Ty("i")), (2, "o", "fduB2", Ty("s")), (3, "o", "fduC3", Ty("L", Ty("i")))])
+    p.order[f].append(("r", "UnDflt"))
+    p.defaults[(f, "UnDflt")] = {1: ("n", 3), 3: ("[", [("n", 1)])}
+    p.structs[(f, "ExDflt")] = ("x", [(1, "o", "fdxA1", Ty("i")), (2, "d", "fdxB2", Ty("s"))])
+    p.order[f].append(("r", "ExDflt"))
+    p.defaults[(f, "ExDflt")] = {1: ("n", 4), 2: ("q", b"m")}
 
 
 SUITES = {"c02": suite_c02}
